@@ -57,7 +57,10 @@ def _plan(pid, tier):
         return [hx_leg("SA", props=["C12"]), hx_leg("SB", props=["C12"]), hx_leg("SP", props=["C12"]), hx_leg("LIMIT", depth=2 if q else 4)]
     if pid == "C13":
         return [hx_leg("SD", props=["C13", "C01", "C02", "C06", "C09", "C12"], drop_world=True, **(dict(L=3, D=7) if q else dict(L=3, D=9))),
-                hx_leg("SP", props=["C13", "C01", "C02", "C06", "C09", "C12"], drop_world=True, max_clones=1, key_kinds=[0, 3], vias=["World"])] + \
+                hx_leg("SP", props=["C13", "C01", "C02", "C06", "C09", "C12"], drop_world=True, max_clones=1, key_kinds=[0, 3], vias=["World"]),
+                # "the same pending events": the clone family and the events family (clears, clone) on the events build, event-log oracle on both worlds
+                hx_leg("SD", features=("events",), props=["C13", "C17", "C01", "C02"], **(dict(L=2, D=6) if q else dict(L=3, D=7))),
+                hx_leg("SG", features=("events",), props=["C13", "C17"])] + \
                ([] if q else [hx_leg("SD", props=["C13", "C01", "C02"], san="miri", miri_depth=2)])
     if pid == "C17":
         # S-E / S-F on the events build: a destroy that panics (generation overflow, panicking Drop) must not be logged
